@@ -104,48 +104,91 @@ fn run_block(dec: &mut Decoder, b: &BlockIn) -> BlockOut {
     BlockOut { fields, verdict, left: buf.to_vec(), table, calls }
 }
 
-/// Candidate Huffman strings: every offset of the concatenated block whose octet has the H bit,
-/// read as a 7-bit-prefix length followed by that many octets.
-fn huff_candidates(all: &[u8], acc: &mut BTreeMap<Vec<u8>, Option<Vec<u8>>>) {
-    for i in 0..all.len() {
-        if all[i] & 0x80 == 0 {
-            continue;
+/// Prefix integer as the decoder reads it: None when truncated or longer than 1 + 4 octets.
+fn walk_int(all: &[u8], pos: usize, prefix: u32) -> Option<(u64, usize)> {
+    if pos >= all.len() {
+        return None;
+    }
+    let mask = ((1u32 << prefix) - 1) as u8;
+    let mut v = (all[pos] & mask) as u64;
+    let mut p = pos + 1;
+    if v < mask as u64 {
+        return Some((v, p));
+    }
+    let mut shift = 0;
+    for _ in 0..4 {
+        if p >= all.len() {
+            return None;
         }
-        let mut len = (all[i] & 0x7f) as u64;
-        let mut pos = i + 1;
-        if len == 127 {
-            let mut shift = 0u32;
-            let mut ok = false;
-            let mut k = 0;
-            while pos < all.len() && k < 9 {
-                let b = all[pos];
-                pos += 1;
-                k += 1;
-                len = len.saturating_add(((b & 0x7f) as u64) << shift);
-                shift += 7;
-                if b & 0x80 == 0 {
-                    ok = true;
-                    break;
+        let b = all[p];
+        p += 1;
+        v += ((b & 0x7f) as u64) << shift;
+        shift += 7;
+        if b & 0x80 == 0 {
+            return Some((v, p));
+        }
+    }
+    None
+}
+
+/// Huffman coded strings of a block: the octet stream is walked representation by representation
+/// (structure only: no table, no validation, so the walk goes at least as far as the decoder
+/// does, in whatever fragments the block arrives); for every string with the H bit the answer
+/// of `huffman::decode` is recorded.  A string the walk misses shows up on the Coq side as a
+/// disagreement (unrecorded strings decode to a non-octet there), never as silent agreement.
+fn huff_candidates(all: &[u8], acc: &mut BTreeMap<Vec<u8>, Option<Vec<u8>>>) {
+    let mut pos = 0usize;
+    // returns the position after the string, recording it when Huffman coded
+    let mut string = |pos: usize, acc: &mut BTreeMap<Vec<u8>, Option<Vec<u8>>>| -> Option<usize> {
+        if pos >= all.len() {
+            return None;
+        }
+        let huff = all[pos] & 0x80 != 0;
+        let (len, p) = walk_int(all, pos, 7)?;
+        if len > (all.len() - p) as u64 {
+            return None;
+        }
+        let end = p + len as usize;
+        if huff {
+            let raw = all[p..end].to_vec();
+            if !acc.contains_key(&raw) {
+                let mut scratch = BytesMut::new();
+                let r = catch_unwind(AssertUnwindSafe(|| huffman_decode(&raw, &mut scratch)));
+                let v = match r {
+                    Ok(Ok(b)) => Some(b.to_vec()),
+                    _ => None,
+                };
+                acc.insert(raw, v);
+            }
+        }
+        Some(end)
+    };
+    while pos < all.len() {
+        let b = all[pos];
+        let next = if b & 0x80 != 0 {
+            walk_int(all, pos, 7).map(|x| x.1)
+        } else if b & 0x40 != 0 || b & 0xe0 == 0 {
+            let prefix = if b & 0x40 != 0 { 6 } else { 4 };
+            match walk_int(all, pos, prefix) {
+                None => None,
+                Some((idx, p)) => {
+                    if idx == 0 {
+                        match string(p, acc) {
+                            Some(p2) => string(p2, acc),
+                            None => None,
+                        }
+                    } else {
+                        string(p, acc)
+                    }
                 }
             }
-            if !ok {
-                continue;
-            }
-        }
-        if len > (all.len() - pos) as u64 {
-            continue;
-        }
-        let raw = all[pos..pos + len as usize].to_vec();
-        if acc.contains_key(&raw) {
-            continue;
-        }
-        let mut scratch = BytesMut::new();
-        let r = catch_unwind(AssertUnwindSafe(|| huffman_decode(&raw, &mut scratch)));
-        let v = match r {
-            Ok(Ok(b)) => Some(b.to_vec()),
-            _ => None,
+        } else {
+            walk_int(all, pos, 5).map(|x| x.1)
         };
-        acc.insert(raw, v);
+        match next {
+            Some(p) => pos = p,
+            None => break,
+        }
     }
 }
 
@@ -439,7 +482,7 @@ impl<'a> Gen<'a> {
                     src.iter().cloned().filter(|b| *b >= 32 && *b != 127).collect()
                 } else if self.rng.chance(1, 12) {
                     self.tag("long-value");
-                    let n = self.rng.range(40, 400) as usize;
+                    let n = self.rng.range(40, 260) as usize;
                     (0..n).map(|i| b'a' + (i % 26) as u8).collect()
                 } else if self.rng.chance(1, 6) {
                     let n = self.rng.range(0, 12) as usize;
